@@ -11,7 +11,9 @@ package main
 //     ops : comma separated
 //           L<i> ms.Parse(text i)     P ms.Process()    R read everything now (ToEntry of every module,
 //           GetErrors, and per entry Namespace, InstantiatingModule, ReadOnly, DefaultValues,
-//           SingleDefaultValue, Path, GetWhenXPath, Modules, [Find], [Print])
+//           SingleDefaultValue, Path, GetWhenXPath, Modules, [Find], [Print]; then the AST lookups: every node
+//           of every loaded module and submodule is asked with yang.ChildNode and yang.FindNode for names that
+//           occur in the set, a name that occurs nowhere, and relative / absolute / prefixed paths built from them)
 //           G<i> ms.GetModule(name i without ".yang")   (Read + Process + ToEntry in one call)
 //           D<i> write text i as file "name i" into a fresh directory that is on ms's search path (opts r: "dir/...")
 //     after every P a read is done when Process returned no error (or opts has e).
@@ -27,6 +29,7 @@ import (
 	"io"
 	"os"
 	"path/filepath"
+	"reflect"
 	"runtime/debug"
 	"sort"
 	"strconv"
@@ -40,6 +43,7 @@ type c01Reader struct {
 	api     string // the call in progress (for the panic report)
 	entries int
 	calls   int
+	nodes   int // AST nodes asked with ChildNode / FindNode
 	seen    map[*yang.Entry]bool
 	op      string   // the history operation in progress
 	panics  []string // distinct panics of read calls (a read that panics does not stop the walk)
@@ -232,6 +236,173 @@ func (r *c01Reader) walk(e *yang.Entry, depth int) {
 	}
 }
 
+// c01Nodes lists the AST nodes below n (n first) by the same walk over the `yang` struct tags that
+// yang.ChildNode does; the pseudo fields (Name, Statement, Parent, Ext) are not followed.
+func c01Nodes(n yang.Node, seen map[yang.Node]bool, out *[]yang.Node, depth int) {
+	if n == nil || depth > 100000 || len(*out) >= 20000 {
+		return
+	}
+	v := reflect.ValueOf(n)
+	if v.Kind() != reflect.Ptr || v.IsNil() || seen[n] {
+		return
+	}
+	seen[n] = true
+	*out = append(*out, n)
+	v = v.Elem()
+	if v.Kind() != reflect.Struct {
+		return
+	}
+	t := v.Type()
+	for i := 0; i < t.NumField(); i++ {
+		tag := t.Field(i).Tag.Get("yang")
+		if tag == "" || (tag[0] >= 'A' && tag[0] <= 'Z') {
+			continue
+		}
+		f := v.Field(i)
+		switch f.Kind() {
+		case reflect.Ptr:
+			if !f.IsNil() && f.CanInterface() {
+				if c, ok := f.Interface().(yang.Node); ok {
+					c01Nodes(c, seen, out, depth+1)
+				}
+			}
+		case reflect.Slice:
+			for j := 0; j < f.Len(); j++ {
+				if e := f.Index(j); e.Kind() == reflect.Ptr && !e.IsNil() && e.CanInterface() {
+					if c, ok := e.Interface().(yang.Node); ok {
+						c01Nodes(c, seen, out, depth+1)
+					}
+				}
+			}
+		}
+	}
+}
+
+const c01NodeBudget = 800 // ChildNode / FindNode calls per read of the whole set
+
+// readNodes: the AST lookups.  Every node of every loaded module and submodule is asked, with yang.ChildNode
+// and yang.FindNode, for names that occur somewhere in the set (as they stand and without their prefix), for
+// a name that occurs nowhere, and for relative ("..", "../.."), absolute and prefixed paths made of them; a
+// uses / augment / deviation argument is also asked as the path it is.  The number of calls per read is
+// bounded: when nodes x names is larger, every node still gets the unknown name and a rotating part of the
+// names.  A lookup that recurses without bound kills the process (fatal stack overflow), one that does not
+// return is a stall; both are the caller's to see.
+func (r *c01Reader) readNodes(ms *yang.Modules) {
+	var mods []*yang.Module
+	seenM := map[*yang.Module]bool{}
+	for _, mm := range []map[string]*yang.Module{ms.Modules, ms.SubModules} {
+		keys := make([]string, 0, len(mm))
+		for k := range mm {
+			keys = append(keys, k)
+		}
+		sort.Strings(keys)
+		for _, k := range keys {
+			if m := mm[k]; m != nil && !seenM[m] {
+				seenM[m] = true
+				mods = append(mods, m)
+			}
+		}
+	}
+	var nodes []yang.Node
+	seen := map[yang.Node]bool{}
+	for _, m := range mods {
+		c01Nodes(m, seen, &nodes, 0)
+	}
+	if len(nodes) == 0 {
+		return
+	}
+	nameSet := map[string]bool{}
+	pfxSet := map[string]bool{}
+	simple := func(s string) bool {
+		return s != "" && len(s) <= 64 && !strings.ContainsAny(s, "/ \t\r\n\"'{};")
+	}
+	for _, n := range nodes {
+		name := ""
+		r.try("NName", func() { name = n.NName() })
+		switch n.Kind() {
+		case "prefix":
+			if simple(name) {
+				pfxSet[name] = true
+			}
+			continue
+		case "leaf", "leaf-list", "container", "list", "choice", "case", "anyxml", "anydata", "grouping", "uses",
+			"typedef", "identity", "rpc", "action", "notification", "module", "submodule", "extension", "feature":
+		default:
+			continue
+		}
+		if !simple(name) {
+			continue
+		}
+		nameSet[name] = true
+		if i := strings.Index(name, ":"); i >= 0 && simple(name[i+1:]) {
+			nameSet[name[i+1:]] = true
+			if simple(name[:i]) {
+				pfxSet[name[:i]] = true
+			}
+		}
+	}
+	names := make([]string, 0, len(nameSet))
+	for k := range nameSet {
+		names = append(names, k)
+	}
+	sort.Strings(names)
+	pfxs := make([]string, 0, len(pfxSet)+1)
+	for k := range pfxSet {
+		pfxs = append(pfxs, k)
+	}
+	sort.Strings(pfxs)
+	pfxs = append(pfxs, "zz-no-such-prefix")
+	const nowhere = "zz-nowhere"
+
+	ask := func(n yang.Node, kind, name string, k int) {
+		r.try("ChildNode("+kind+","+strconv.Quote(name)+")", func() { _ = yang.ChildNode(n, name) })
+		pfx := pfxs[k%len(pfxs)]
+		other := nowhere
+		if len(names) > 0 {
+			other = names[(k+1)%len(names)]
+		}
+		for _, p := range []string{name, "/" + name, "../" + name, pfx + ":" + name, "/" + pfx + ":" + name,
+			"../../" + name + "/..", "/" + pfx + ":" + name + "/" + other + "/../" + name} {
+			p := p
+			r.try("FindNode("+kind+","+strconv.Quote(p)+")", func() { _, _ = yang.FindNode(n, p) })
+		}
+	}
+	const perAsk = 8
+	per := len(names) // names asked per node, besides the unknown one
+	for per > 0 && len(nodes)*(per+1)*perAsk > c01NodeBudget {
+		per--
+	}
+	stride := 1
+	for (len(nodes)/stride+1)*perAsk > c01NodeBudget {
+		stride++
+	}
+	for j, n := range nodes {
+		kind := n.Kind()
+		if j%stride != 0 && kind != "uses" && kind != "module" && kind != "submodule" {
+			continue
+		}
+		r.nodes++
+		ask(n, kind, nowhere, j)
+		for t := 0; t < per; t++ {
+			ask(n, kind, names[(j*per+t)%len(names)], j+t)
+		}
+		switch kind {
+		case "uses", "augment", "deviation":
+			// the argument of the statement as the path it is
+			raw := n.NName()
+			if len(raw) <= 256 {
+				r.try("FindNode("+kind+",own argument "+strconv.Quote(raw)+")", func() { _, _ = yang.FindNode(n, raw) })
+			}
+		}
+		if j%16 == 0 {
+			for _, p := range []string{"", "/", "..", "../..", "a/", "//", "/:", ":", "/..", "../../../../../../../..", "./."} {
+				p := p
+				r.try("FindNode("+kind+","+strconv.Quote(p)+")", func() { _, _ = yang.FindNode(n, p) })
+			}
+		}
+	}
+}
+
 func (r *c01Reader) readAll(ms *yang.Modules) {
 	times := 1
 	if strings.Contains(r.opts, "q") {
@@ -278,6 +449,8 @@ func (r *c01Reader) readAll(ms *yang.Modules) {
 			}
 		}
 	}
+	r.api = "ChildNode/FindNode"
+	r.readNodes(ms)
 	r.api = ""
 }
 
@@ -400,7 +573,7 @@ func c01Hist(toks []string) (out string) {
 	if len(r.panics) > 0 {
 		return strings.Join(r.panics, " ALSO ")
 	}
-	return fmt.Sprintf("ok %s entries=%d calls=%d", strings.Join(sum, ","), r.entries, r.calls)
+	return fmt.Sprintf("ok %s entries=%d calls=%d nodes=%d", strings.Join(sum, ","), r.entries, r.calls, r.nodes)
 }
 
 type c01Capped struct {
